@@ -23,7 +23,7 @@ var Check = &ev.Check{
 	ID:    "C08",
 	Level: "exploration",
 	Rule: "(a) every reference cycle of length 1..3 (thorough: plus length 4 over the 8 core kinds) over 21 node kinds (typedef direct/list/set/map-key/map-value, struct optional/required/list field, union, exception, " +
-		"const i32/i64/list/map/struct-literal, struct field default -> const, default = {} / [{}] literal of a struct type, default = constant of the own struct type, const of a struct type, service extends; cycles of length<=2 also reached through 4 kinds of entry definition in a separate root file) including mixed and ill-kinded ones, each in a single file and in one file per node (cyclic / self includes); " +
+		"const i32/i64/list/map/struct-literal, struct field default -> const, default = {} / [{}] literal of a struct type, default = constant of the own struct type, const of a struct type, service extends; cycles of length<=2 also reached through 9 kinds of entry definition in a separate root file (constant, typedef, typedef chains of 2 and 3, struct default, service, constant / default / map key of an alias)) including mixed and ill-kinded ones, each in a single file and in one file per node (cyclic / self includes); " +
 		"(b) every token sequence of length<=4 (quick) / <=5 (thorough) over a reduced 24-token alphabet and <=3 / <=4 over the full 61-token alphabet, every byte string of length<=2 over 256 values; " +
 		"(c) every single-token deletion, duplication and substitution (10 substitutes) of each corpus file (plugin/api.thrift and gen/internal/tests/thrift/*.thrift; quick: files <= 400 tokens, thorough: all files, budget-capped). " +
 		"Each input runs compile.Compile and, if it compiled, gen.Generate in a memory-limited worker process; a panic, fatal error (stack overflow) or hang is attributed to the input. Cases are distinct inputs by construction; non-trivial = every case.",
@@ -199,6 +199,16 @@ var entries = []struct {
 	{"entry-typedef", func(T, C, V string) string { return "typedef " + T + " ENTRY" }},
 	{"entry-struct-default", func(T, C, V string) string { return "struct ENTRY { 1: optional " + T + " f = " + C + " }" }},
 	{"entry-service", func(T, C, V string) string { return "service ENTRY extends " + V + " {}" }},
+	// longer tails into the cycle, and values cast to a type on the tail
+	{"entry-typedef-chain2", func(T, C, V string) string { return "typedef " + T + " INNER\ntypedef INNER ENTRY" }},
+	{"entry-typedef-chain3", func(T, C, V string) string {
+		return "typedef " + T + " INNER\ntypedef INNER MIDDLE\ntypedef MIDDLE ENTRY\nstruct USER { 1: optional ENTRY f; 2: optional list<MIDDLE> g }"
+	}},
+	{"entry-const-of-alias", func(T, C, V string) string { return "typedef " + T + " ALIAS\nconst ALIAS ENTRY = 1" }},
+	{"entry-default-of-alias", func(T, C, V string) string {
+		return "typedef " + T + " ALIAS\nstruct ENTRY { 1: optional ALIAS f = 1; 2: optional list<ALIAS> g = [{}]; 3: optional ALIAS h = {} }"
+	}},
+	{"entry-map-key-of-alias", func(T, C, V string) string { return "typedef " + T + " ALIAS\nconst map<ALIAS, ALIAS> ENTRY = {1: 2}" }},
 }
 
 func cycleInputEntry(ks []int, perFile bool, entry int) input {
